@@ -93,7 +93,7 @@ def floscript(case):
             opts += " in %s" % f.get("order", "mid")
         L.append("  framer f%d %s at %s first s0" % (i, opts, dec(f["period"])))
         for j, fr in enumerate(f["frames"]):
-            L.append("    frame s%d" % j)
+            L.append("    frame s%d%s" % (j, "" if fr.get("over") is None else " in s%d" % fr["over"]))
             if fr.get("be"):
                 L.append("      benter")
                 for g in fr["be"]:
@@ -102,9 +102,11 @@ def floscript(case):
                     else:
                         L.append("        %s f%d" % (CTL[g[1]], g[2]))
             for key, verb in (("en", "enter"), ("re", "recur"), ("ex", "exit")):
-                if fr.get(key):
+                if fr.get(key) or key != "re":
                     L.append("      " + verb)
-                    for a in fr[key]:
+                    if key != "re":
+                        L.append("        do bids rec")      # the recorder is the first enter / exit action of every frame
+                    for a in fr.get(key, []):
                         L.append("        " + act_text(a))
             if fr.get("pre"):
                 L.append("      native")
@@ -130,8 +132,26 @@ class Run:
         return "%d/%d" % (fr.numerator, fr.denominator)
 
 
+_deed = {"run": None, "done": False}
+
+
+def ensure_deed():
+    if _deed["done"]:
+        return
+    from ioflo.base import doing
+
+    @doing.doify('BidsRec')
+    def bidsrec(self, **kw):
+        run = _deed["run"]
+        fr = self._act.frame
+        run.trace.append("m %d %s %s" % (run.index.get(fr.framer, -1), fr.name[1:],
+                                         "e" if self._act.context == "enter" else "x"))
+    _deed["done"] = True
+
+
 def run_case(case):
     core.import_ioflo()
+    ensure_deed()
     from ioflo.base import skedding, housing, wanting, fiating, framing
     run = Run(case)
     d = os.path.join(core.SCRATCH, "c04-%d" % os.getpid())
@@ -148,6 +168,8 @@ def run_case(case):
     house = sk.houses[0]
     framers = list(house.taskers)
     idx = {fr: i for i, fr in enumerate(framers)}
+    run.index = idx
+    _deed["run"] = run
     if [fr.name for fr in framers] != ["f%d" % i for i in range(len(case["framers"]))]:
         return ["build-order-unexpected " + " ".join(fr.name for fr in framers)]
 
@@ -273,8 +295,9 @@ def run_case(case):
     lines = [outcome]
     lines += ["E " + e for e in run.events]
     lines += ["T " + t for t in run.trace]
-    lines.append("final " + " ".join("%d:%s:%s" % (fr.status, fr.desire if fr.desire in (0, 1, 2, 3, 4) else 5,
-                                                     run.show(fr.period)) for fr in framers))
+    lines.append("final " + " ".join("%d:%s:%s:%s" % (fr.status, fr.desire if fr.desire in (0, 1, 2, 3, 4) else 5,
+                                                        run.show(fr.period), ",".join(a.name[1:] for a in fr.actives))
+                                      for fr in framers))
     lines.append("ticks %d" % run.tick)
     return lines
 
@@ -299,6 +322,7 @@ def request(case):
     for me, f in enumerate(case["framers"]):
         out += [f["sched"][0], num(f["period"]), str(len(f["frames"]))]
         for fr in f["frames"]:
+            out.append("-" if fr.get("over") is None else str(fr["over"]))
             be = fr.get("be", [])
             out.append(str(len(be)))
             for g in be:
